@@ -1780,7 +1780,10 @@ class Message(ABC):
                 elif meta.proto_type == TYPE_ENUM:
                     enum_cls = cls._betterproto.cls_by_field[field_name]
                     if isinstance(value, list):
-                        value = [enum_cls.from_string(e) for e in value]
+                        value = [
+                            enum_cls.from_string(e) if isinstance(e, str) else e
+                            for e in value
+                        ]
                     elif isinstance(value, str):
                         value = enum_cls.from_string(value)
                 elif meta.proto_type in (TYPE_FLOAT, TYPE_DOUBLE):
